@@ -715,6 +715,13 @@ def _step(target, mp, boot, base_rl, flavor, rnd, tags, fail, exp, i, e, n):
     return (None, nexp)
 
 
+def _brief_ev(e):
+    keep = {k: e[k] for k in ("op", "p", "r", "arg", "res", "open", "elig", "denied", "sysres", "flavor", "val") if k in e}
+    if "post" in e:
+        keep["post"] = {k: v for k, v in e["post"].items() if k != "io"}
+    return keep
+
+
 def _strip(e):
     return {k: v for k, v in e.items() if not k.startswith("_")}
 
@@ -898,19 +905,28 @@ def meta_for(name, k, seed, rnd):
     return m
 
 
-def dump_jobs(ctx, name, r, per_class, maxlen=60):
+def _tour_path(name, c, seed, per_class, maxlen):
+    import hashlib
+    h = hashlib.sha256()
+    for f in ("Settings.tla",):
+        h.update(open(os.path.join(tlc.SPEC, f), "rb").read())
+    h.update(repr((name, sorted(c.items(), key=str), seed, per_class, maxlen)).encode())
+    return os.path.join(core.VERIF, ".cache", "dumps", "SettingsTour-%s-%s.pkl" % (name, h.hexdigest()[:20]))
+
+
+def dump_jobs(ctx, name, c, per_class, maxlen=60):
     """Behaviours (boot + calls) covering every transition of the dumped graph
-    (or per_class of every class); cached next to the dump: they depend on the
-    specification and the seed only."""
+    of Settings under constants *c* (or per_class transitions of every class
+    when the graph is large); cached: they depend on the specification and the
+    seed only.  Returns (#transitions, #states, jobs)."""
     import pickle
-    path = getattr(r, "cache_path", None)
-    tp = None
-    if path:
-        tp = path[:-len(".txt.gz")] + ".tour-%d-%s-%d.pkl" % (ctx.seed, per_class, maxlen)
-        if os.path.exists(tp):
-            with open(tp, "rb") as f:
-                return pickle.load(f)
-    g = graph.from_dump(r)
+    tp = _tour_path(name, c, ctx.seed, per_class, maxlen)
+    if os.path.exists(tp):
+        with open(tp, "rb") as f:
+            return pickle.load(f)
+    r = tlc.dump_cached("Settings", c)
+    ctx.tlc("dump-" + name, r)
+    g = graph.Graph(r.tr)         # (no graph pickle: the tour itself is what is cached)
     big = len(g.edges) > 40000
     segs = replay.tour_jobs(ctx, g, per_class=per_class if big else None,
                             edge_class=edge_class if (per_class and big) else None, maxlen=maxlen)
@@ -919,11 +935,11 @@ def dump_jobs(ctx, name, r, per_class, maxlen=60):
     for k, (s0, events) in enumerate(segs):
         jobs.append((meta_for(name, k, ctx.seed, rnd), [dict(e) for e in events]))
     out = (len(g.edges), len(g.states), jobs)
-    if tp:
-        tmp = tp + ".tmp%d" % os.getpid()
-        with open(tmp, "wb") as f:
-            pickle.dump(out, f, protocol=pickle.HIGHEST_PROTOCOL)
-        os.replace(tmp, tp)
+    os.makedirs(os.path.dirname(tp), exist_ok=True)
+    tmp = tp + ".tmp%d" % os.getpid()
+    with open(tmp, "wb") as f:
+        pickle.dump(out, f, protocol=pickle.HIGHEST_PROTOCOL)
+    os.replace(tmp, tp)
     return out
 
 
@@ -995,16 +1011,11 @@ def live_subset(jobs, name, rnd, limit):
     return out
 
 
-def warm(ctx, tours=True, thorough=True):
-    out = []
+def warm(ctx, thorough=True):
+    """Pre-compute the dumps and the tours built from them (seed 0)."""
     for name, c in DUMPS + (DUMPS_THOROUGH if thorough else []):
-        r = tlc.dump_cached("Settings", c())
-        ctx.tlc("dump-" + name, r)
-        if tours:
-            for pc in ((None,) if name.endswith("-wide") else (None, 4)):
-                dump_jobs(ctx, name, r, pc)
-        out.append((name, r))
-    return out
+        for pc in ((None,) if name.endswith("-wide") else (None, 4)):
+            dump_jobs(ctx, name, c(), pc)
 
 
 # ---------------------------------------------------------------------------
@@ -1413,7 +1424,11 @@ def judge(ctx, stats, name, traces, np_, capped):
     ctx.cov["traces_validated_against_impl"] += len(traces)
     ctx.cov.setdefault("replay", {})[name] = {"histories": len(traces), "events": nev,
                                               "rejected_steps": sum(len(v) for v in rej.values())}
-    ctx.sample({"kind": name, "history": dict(traces[0], steps=traces[0]["steps"][:4])})
+    t0 = traces[0]
+    ctx.sample({"kind": name, "history": {"elig": t0["elig"], "denied": t0["denied"], "sysres": t0["sysres"],
+                                          "flavor": t0["flavor"], "target": t0["target"],
+                                          "steps": [{k: (v if k != "k" else {x: y for x, y in v.items() if x != "rl"})
+                                                     for k, v in s.items()} for s in t0["steps"][:4]]}})
 
 
 def _brief(k, s):
@@ -1628,7 +1643,6 @@ def _check(ctx):
     def mark(name):
         ph[name] = round(time.time() - t0, 1)
     bg = Background()
-    bg.start("model", model_checks, ctx)
     bg.start("mixed", mixed_jobs, ctx, 1500 if thorough else 250, 40)
     calibrate(ctx)
     # (4) seeded random drivers first: TLC judges their histories in the background
@@ -1655,15 +1669,16 @@ def _check(ctx):
                 owners.append(("live", name, kind, b))
     # (2) transition tours of the dumped graphs, on both targets
     live_budget["affinity-wide"] = None
-    for name, r in warm(ctx, tours=False, thorough=thorough):
-        nedges, nstates, jobs = dump_jobs(ctx, name, r, None if thorough else 4)
+    for name, c in DUMPS + (DUMPS_THOROUGH if thorough else []):
+        nedges, nstates, jobs = dump_jobs(ctx, name, c(), None if thorough else 4)
         ctx.cov.setdefault("graphs", {})[name] = {"transitions": nedges, "states": nstates, "behaviours": len(jobs)}
         add("tour-" + name, "replayed (transition tour)", jobs, None if thorough else live_budget[name])
-        ctx.sample({"kind": "tour-" + name, "events": [_strip(e) for e in jobs[len(jobs) // 2][1][:4]]}, limit=3)
+        ctx.sample({"kind": "tour-" + name, "events": [_brief_ev(e) for e in jobs[len(jobs) // 2][1][:5]]}, limit=3)
     # (3) random mixed behaviours from tlc -simulate
     mark("tours-built")
     add("simulate-mixed", "simulated (mixed families)", bg.join("mixed"), None if thorough else 60)
     mark("mixed-generated")
+    bg.start("model", model_checks, ctx)        # TLC on the model while the code is exercised
     results = run_items(items, 2400)
     mark("work-items-done")
     for own, val in zip(owners, results):
